@@ -28,7 +28,7 @@ Open Scope Z_scope.
 Inductive operand := Same (ts : list Z) | Other.
 
 Inductive op :=
-  | GetItem (i : Z) | GetSlice (a b c : option Z) | Iter | Len
+  | GetItem (i : Z) | GetSlice (a b c : option Z) | Iter | IterRev | Len
   | SetItem (i : Z) (v : operand) | DelItem (i : Z) | DelSlice (a b c : option Z)
   | Append (v : operand) | Extend (v : operand) | Insert (i : Z) (v : operand)
   | Pop (i : Z) | Reverse | Clear
@@ -89,6 +89,8 @@ Fixpoint iter_loop (st : list Z) (fuel : nat) (i : Z) : list (list Z) :=
   | S f => match py_getitem st i with Ok v => [v] :: iter_loop st f (i + 1) | Raise _ => [] end
   end.
 Definition m_iter (st : list Z) : list (list Z) := iter_loop st (S (length st)) 0.
+(* Sequence.__reversed__: for i in reversed(range(len(self))): yield self[i] *)
+Definition m_reversed (st : list Z) : res (list Z) := collect st (rev (map Z.of_nat (seq 0 (length st)))).
 
 (* ------------------------------------------------------------------ the guards of __setitem__/append/insert *)
 Definition m_single_operand (v : operand) : res Z :=
@@ -102,6 +104,7 @@ Definition m_step (C : cls) (st : list Z) (o : op) : list Z * res out :=
   | GetItem i => (st, match py_getitem st i with Ok v => Ok (Obj [v]) | Raise e => Raise e end)
   | GetSlice a b c => (st, m_getslice C st a b c)
   | Iter => (st, Ok (Objs (m_iter st)))
+  | IterRev => (st, match m_reversed st with Ok vs => Ok (Objs (map (fun t => [t]) vs)) | Raise e => Raise e end)
   | Len => (st, Ok (Int (zlen st)))
   | SetItem i v => match m_single_operand v with
                    | Raise e => (st, Raise e)
@@ -150,6 +153,7 @@ Definition s_step (st : list Z) (o : op) : list Z * res out :=
   | GetItem i => (st, match py_getitem st i with Ok v => Ok (Obj [v]) | Raise e => Raise e end)
   | GetSlice a b c => (st, match py_getslice st a b c with Ok vs => Ok (Obj vs) | Raise e => Raise e end)
   | Iter => (st, Ok (Objs (map (fun t => [t]) st)))
+  | IterRev => (st, Ok (Objs (map (fun t => [t]) (rev st))))       (* list(reversed(l)) *)
   | Len => (st, Ok (Int (zlen st)))
   | SetItem i v => match s_single_operand v with
                    | Raise e => (st, Raise e)
@@ -261,6 +265,20 @@ Proof.
     apply IH.
 Qed.
 
+Lemma map_nth_seq : forall l : list Z, map (fun k => nth k l 0) (seq 0 (length l)) = l.
+Proof.
+  induction l as [|x t IH]; [reflexivity|]. cbn [length seq map nth]. f_equal.
+  rewrite <- seq_shift, map_map. exact IH.
+Qed.
+
+Lemma m_reversed_spec : forall st, m_reversed st = Ok (rev st).
+Proof.
+  intros st. unfold m_reversed. rewrite collect_in_range.
+  - f_equal. rewrite map_rev, map_map. f_equal.
+    rewrite <- (map_nth_seq st) at 2. apply map_ext. intros k. unfold znth. rewrite Nat2Z.id. reflexivity.
+  - intros k Hk. apply in_rev in Hk. apply in_map_iff in Hk. destruct Hk as [n [<- Hn]]. apply in_seq in Hn. unfold zlen. lia.
+Qed.
+
 Lemma m_iter_spec : forall st, m_iter st = map (fun t => [t]) st.
 Proof. intros st. unfold m_iter. apply (iter_loop_spec st []). Qed.
 
@@ -280,6 +298,7 @@ Proof.
   intros C st o. destruct o; cbn [m_step s_step]; try reflexivity.
   - (* GetSlice *) rewrite (slice_full C st a b c). reflexivity.
   - rewrite m_iter_spec. reflexivity.
+  - rewrite m_reversed_spec. reflexivity.
   - rewrite single_operand_agree. reflexivity.
   - rewrite single_operand_agree. reflexivity.
   - rewrite single_operand_agree. reflexivity.
@@ -314,7 +333,7 @@ Proof.
 Qed.
 
 (* ------------------------------------------------------------------ encoders and the lock-step runner (the tie) *)
-Definition exn_code (e : exn) : Z := match e with IndexError => 1 | ValueError => 2 | TypeError => 3 | AssertionError => 4 end.
+Definition exn_code (e : exn) : Z := match e with IndexError => 1 | ValueError => 2 | TypeError => 3 | AssertionError => 4 | StopIteration => 5 end.
 Definition enc_out (r : res out) : list Z :=
   match r with
   | Ok NoneV => [0]
